@@ -10,9 +10,9 @@ import numpy as np
 
 from ..common import fbits, unfbits, v3, allclose
 
-RULE = ("rot: axis = random direction x norm 10^U(-6,6) (plus axis-aligned / integer axes), theta in [-20,20]; "
+RULE = ("rot: axis = random direction x norm 10^U(-6,6) (plus axis-aligned / integer axes / almost-unit axes with norm 1 +- 10^-j, j=1..12), theta in [-20,20]; "
         "frame: three points at scale 10^U(-3,3): generic, exactly collinear (coordinate axes, face/space "
-        "diagonals, random integer directions, integer multipliers), coincident middle point. Non-trivial = "
+        "diagonals, random integer directions, lines tilted off an axis by 2^-j, integer multipliers), coincident middle point. Non-trivial = "
         "every rot case with theta != 0 and every frame case; distinct by canonical hash of the inputs.")
 
 TOL = 1e-9
@@ -34,6 +34,12 @@ def generate(ctx):
             axis = [float(rng.randint(-4, 4)) for _ in range(3)]
             if not any(axis):
                 axis[rng.randrange(3)] = 1.0
+        elif k < 0.5:
+            # almost-unit axes: norm = 1 +- 10^-j (a shortcut "already normalised" test would skip these)
+            d = [rng.gauss(0, 1) for _ in range(3)]
+            nrm = (1.0 + rng.choice([-1, 1]) * 10.0 ** -rng.randint(1, 12)) * rng.choice([1.0, 1.0, 2.0, 0.5, 10.0])
+            s = nrm / math.sqrt(sum(c * c for c in d))
+            axis = [c * s for c in d]
         else:
             d = [rng.gauss(0, 1) for _ in range(3)]
             s = 10 ** rng.uniform(-6, 6) / math.sqrt(sum(c * c for c in d))
@@ -51,11 +57,18 @@ def generate(ctx):
             sg = rng.choice([-1, 1])
             d = [sg * c for c in d]
             cls = "collinear-axis-diag"
-        elif k < 0.45:
+        elif k < 0.38:
             d = [rng.randint(-5, 5) for _ in range(3)]
             if not any(d):
                 d[rng.randrange(3)] = 1
             cls = "collinear-integer"
+        elif k < 0.45:
+            # exactly collinear along a line tilted off a coordinate axis by 2^-j (j = 3..40)
+            d = [0.0, 0.0, 0.0]
+            ax = rng.randrange(3)
+            d[ax] = float(rng.choice([-1, 1]))
+            d[(ax + rng.choice([1, 2])) % 3] = rng.choice([-1, 1]) * 2.0 ** -rng.randint(3, 40)
+            cls = "collinear-tilted-axis"
         elif k < 0.55:
             cls = "coincident-middle"
             d = None
